@@ -117,7 +117,7 @@ func main() {
 		if pd != "." {
 			importPath = modPath + "/" + filepath.ToSlash(pd)
 		}
-		info := &types.Info{Types: map[ast.Expr]types.TypeAndValue{}}
+		info := &types.Info{Types: map[ast.Expr]types.TypeAndValue{}, Selections: map[*ast.SelectorExpr]*types.Selection{}}
 		conf := types.Config{Importer: imp, Error: func(err error) {}}
 		_, terr := conf.Check(importPath, fset, files, info)
 		hasRange := false
@@ -134,6 +134,8 @@ func main() {
 		}
 		firstSite := site
 		mapRanges, osFiles := 0, 0
+		lockSites := 0
+		_ = lockSites
 		var siteNames []string
 		for i, f := range files {
 			src, err := os.ReadFile(paths[i])
@@ -219,6 +221,49 @@ func main() {
 				lb := fset.Position(rs.Body.Lbrace).Offset
 				edits = append(edits, edit{off: start, del: lb + 1 - start, text: head + body, seq: len(edits)})
 				add(rs.Body.Rbrace+1, 0, " }")
+				return true
+			})
+			// 2b. real locks: a task that blocks on a sync.Mutex held by a PARKED
+			// task would stop the whole simulation.  Lock / RLock become a
+			// TryLock loop that yields to the scheduler between attempts, Once.Do
+			// becomes the simulator's own once (which yields while another task is
+			// inside the function).
+			ast.Inspect(f, func(n ast.Node) bool {
+				call, ok := n.(*ast.CallExpr)
+				if !ok {
+					return true
+				}
+				sel, ok := call.Fun.(*ast.SelectorExpr)
+				if !ok {
+					return true
+				}
+				selection := info.Selections[sel]
+				if selection == nil {
+					return true
+				}
+				fn, ok := selection.Obj().(*types.Func)
+				if !ok {
+					return true
+				}
+				switch fn.FullName() {
+				case "(*sync.Mutex).Lock", "(*sync.RWMutex).Lock", "(*sync.RWMutex).RLock":
+					try := map[string]string{"Lock": "TryLock", "RLock": "TryRLock"}[sel.Sel.Name]
+					add(call.Pos(), 0, "vsimrt.Lock(")
+					add(sel.Sel.Pos(), len(sel.Sel.Name), try)
+					add(call.Lparen, 1, "")
+					needRT = true
+					lockSites++
+				case "(*sync.Once).Do":
+					recv := "&("
+					if _, isPtr := info.TypeOf(sel.X).(*types.Pointer); isPtr {
+						recv = "("
+					}
+					// once.Do(f)  ->  vsimrt.OnceDo(&(once), f)
+					add(call.Pos(), 0, "vsimrt.OnceDo("+recv)
+					add(sel.X.End(), fset.Position(call.Lparen).Offset+1-fset.Position(sel.X.End()).Offset, "), ")
+					needRT = true
+					lockSites++
+				}
 				return true
 			})
 			// 3. steps
